@@ -333,7 +333,7 @@ fn keywords() -> &'static HashSet<&'static str> {
     static KEYWORDS: OnceLock<HashSet<&'static str>> = OnceLock::new();
     KEYWORDS.get_or_init(|| {
         HashSet::from_iter([
-            "let", "into", "case", "prql", "type", "module", "internal", "func",
+            "let", "into", "case", "prql", "type", "module", "internal", "func", "import", "enum",
         ])
     })
 }
